@@ -31,6 +31,11 @@ theorem eval_eq_spec_method (env : Env) (hwf : EnvWF env) (rule : Option Rule) (
   rw [checkMethodPerm_eq_D env rule us d hd]
   exact checkMethodPermD_iff_spec env hwf d rule hr us
 
+/-- the nesting bound of the specification is immaterial once it covers the longest URI -/
+theorem spec_bound_irrelevant (env : Env) (hwf : EnvWF env) (root : Name) (us : List URI) (d d' : Nat)
+    (h : maxLen us ≤ d) (h' : maxLen us ≤ d') : SpecAccount env d root us ↔ SpecAccount env d' root us := by
+  rw [← eval_eq_spec env hwf root us d h, ← eval_eq_spec env hwf root us d' h']
+
 /-- The headline statement for a plain threshold rule over keys: the account accepts exactly when the
 weights of the listed keys `m` for which a URI `account/m` was presented (i.e. `m` signed) reach the
 threshold — each member once, whatever else is in the URI list. -/
